@@ -31,7 +31,7 @@ def build_gen(chk, protos):
         with open(path + '.tmp', 'w') as f:
             f.write(text)
         os.rename(path + '.tmp', path)
-    for old in sorted(os.listdir(d), key=lambda x: os.path.getmtime(os.path.join(d, x)))[:-6]:
+    for old in sorted(os.listdir(d), key=lambda x: os.path.getmtime(os.path.join(d, x)))[:-24]:
         try:
             os.remove(os.path.join(d, old))
         except OSError:
@@ -318,6 +318,18 @@ def run(chk):
         chk.finding(signature(c2, bad2, m2), replay_obj(c2, bad2, m2),
                     'native callee does not receive the ABI image for %s via %s: %s' % (
                         signature(c2).split(':', 2)[2], c2['engine'], '; '.join(bad2[:3])))
+    if not quick:
+        # the same calls against a build of /repo with its assertions enabled
+        impl_dbg = vlib.build_harness('c05_probe', ['c05_probe.c', 'c05_asm.S'], variant='dbg')
+        sub = cases[:len(cases) // 4]
+        chk.dist('variant', 'asserts-on', len(sub))
+        for c, bad, m in run_cases(impl_dbg, model, sub):
+            if bad and ('dbg:' + signature(c)) not in seen:
+                seen.add('dbg:' + signature(c))
+                nbad += 1
+                if nbad <= 14:
+                    chk.finding(signature(c), replay_obj(c, bad, m), 'assert-enabled build: native callee does not receive the '
+                                'ABI image for %s via %s: %s' % (signature(c).split(':', 2)[2], c['engine'], '; '.join(bad[:3])))
     # three-way: gcc-compiled callers and callees generated from the same prototypes
     trng = chk.rng('threeway')
     singles = []
@@ -351,6 +363,13 @@ def replay(chk, path):
     c = dict(calls=[dict(proto=x['proto'], vals=[bytes.fromhex(v) for v in x['vals']]) for x in calls],
              engine=j['engine'], target=j.get('target', 'probe'),
              rets={k: (bytes.fromhex(v) if isinstance(v, str) else v) for k, v in j['rets'].items()})
+    if c['target'].startswith('callee'):
+        # a gcc-compiled callee generated from the prototype: regenerate it (index 0)
+        impl, ok = build_gen(chk, [c['calls'][0]['proto']])
+        found = three_way(chk, impl, model, [c['calls'][0]['proto']], ok, chk.rng('replay'), [c['engine']])
+        print('calls:', signature(c), 'engine:', c['engine'], 'target: gcc-compiled callee')
+        print('mismatches:', [b for _, b, _ in found])
+        return 1 if found else 0
     (c, bad, m), = run_cases(impl, model, [c])
     print('calls:', signature(c), 'engine:', c['engine'])
     print('model image:', ' '.join('%s=%s/%d' % x for x in m['img']))
